@@ -1,5 +1,6 @@
 import BddVerif.Props.C17
 import BddVerif.Lemmas.AlgoEq2RenDriver
+import BddVerif.Lemmas.ExactWalkC17
 #print axioms B.Props.C17.set_num_vars_safe
 #print axioms B.Props.C17.rename_variables_safe
 #print axioms B.Props.C17.rename_variable_safe
@@ -19,3 +20,5 @@ import BddVerif.Lemmas.AlgoEq2RenDriver
 #print axioms B.Props.C17.rename_variable_canonical
 #print axioms B.Props.C17.transfer_canonical
 #print axioms B.Props.C17.kept_canon
+#print axioms B.ExactWalk.sameFunctionUnder_sound
+#print axioms B.ExactWalk.sameFunctionUnder_sound_wfoB
